@@ -17,10 +17,12 @@ import (
 	"fmt"
 	"io"
 	"os"
+	"runtime"
 	"sort"
 	"strings"
 	"sync"
 	"sync/atomic"
+	"syscall"
 	"testing"
 	"testing/synctest"
 	"time"
@@ -63,6 +65,10 @@ type c07Checker struct {
 
 	probed  sync.Map // pkey -> struct{}: states whose opens have been enumerated
 	opens   atomic.Int64
+	tNew    atomic.Int64 // nanoseconds spent building fixtures / applying operations / probing states (summed over workers)
+	tApply  atomic.Int64
+	tVisit  atomic.Int64
+	nNew    atomic.Int64
 	groups  atomic.Int64
 	pstates atomic.Int64
 
@@ -454,6 +460,16 @@ func (ck *c07Checker) visit(in *c07Inst) error {
 	return nil
 }
 
+// c07RealNow is the REAL clock in nanoseconds (time.Now is virtual inside a bubble). Used only for the cost
+// figures written to the evidence, never by an oracle.
+func c07RealNow() int64 {
+	var tv syscall.Timeval
+	if err := syscall.Gettimeofday(&tv); err != nil {
+		return 0
+	}
+	return tv.Sec*1e9 + tv.Usec*1e3
+}
+
 // ---------- the check ----------
 
 func TestVerifC07(t *testing.T) {
@@ -487,7 +503,11 @@ func TestVerifC07(t *testing.T) {
 	alphabet := c07Alphabet()
 	sp := &seqmc.Spec[*c07Inst, c07Op]{
 		Name:  "C07",
-		New:   func() *c07Inst { return c07NewInst(ck) },
+		New: func() *c07Inst {
+			t0 := c07RealNow()
+			defer func() { ck.tNew.Add(c07RealNow() - t0); ck.nNew.Add(1) }()
+			return c07NewInst(ck)
+		},
 		Close: func(in *c07Inst) { in.close() },
 		Ops: func(in *c07Inst) []c07Op {
 			if in.broken != "" {
@@ -499,9 +519,13 @@ func TestVerifC07(t *testing.T) {
 			if in.broken != "" {
 				return nil
 			}
+			t0 := c07RealNow()
 			if err := in.apply(op); err != nil {
 				return err
 			}
+			t1 := c07RealNow()
+			ck.tApply.Add(t1 - t0)
+			defer func() { ck.tVisit.Add(c07RealNow() - t1) }()
 			return ck.visit(in)
 		},
 		Key:      func(in *c07Inst) string { return in.key },
@@ -518,6 +542,8 @@ func TestVerifC07(t *testing.T) {
 	r.Note("states (mux order+kind, identify snapshot, knowledge of both dialers): %d; of these distinct (mux, knowledge) states whose opens were enumerated: %d; groups of opens: %d; opens: %d",
 		st.States, ck.pstates.Load(), ck.groups.Load(), ck.opens.Load())
 	r.Note("states per depth: %v", st.PerDepth)
+	r.Note("cost (real time summed over %d workers): %d fixtures built in %.1fs, operations applied in %.1fs, opens enumerated in %.1fs",
+		runtime.GOMAXPROCS(0), ck.nNew.Load(), float64(ck.tNew.Load())/1e9, float64(ck.tApply.Load())/1e9, float64(ck.tVisit.Load())/1e9)
 	if ck.opens.Load() == 0 {
 		r.Cap("no open was executed")
 	}
